@@ -15,7 +15,7 @@ type c01 struct{ base }
 
 func init() {
 	runner.Register(&c01{base{id: "C01", level: "exploration",
-		rule: "exhaustive: every sequence of <=4 (thorough <=5) ops over 2 keys x 8 op templates {put full, put small, update SET, update REMOVE, update ADD, delete, delete ALL_OLD, get}, hash-only and hash+range schemas, both adapters; seeded: histories of 40-80 ops over 3-6 hostile keys. After EVERY step the complete observable state (GetItem of every key used so far, base Scan as a set, DescribeTable.ItemCount) is compared with the model map. non-trivial = history contains an overwrite, a delete-then-re-put or an update-created item and touches >=2 keys; distinct by (schema, adapter, op-kind sequence, key-index sequence).",
+		rule: "exhaustive: every sequence of <=4 (thorough <=5) ops over 2 keys x 8 op templates {put full, put small, update SET, update REMOVE, update ADD, delete, delete ALL_OLD, get}, hash-only and hash+range schemas, both adapters; seeded: histories of 40-80 ops over 3-6 hostile keys, key types rotating over S/S, N/S, S/N, B/B, N/N (string parts incl. numeral-looking strings, number parts re-written in other notations of the same value). After EVERY step the complete observable state (GetItem of every key used so far, base Scan as a set, DescribeTable.ItemCount) is compared with the model map. non-trivial = history contains an overwrite, a delete-then-re-put or an update-created item and touches >=2 keys; distinct by (schema, adapter, op-kind sequence, key-index sequence).",
 		assumptions: commonAssumptions}})
 }
 
@@ -194,11 +194,41 @@ func (p *c01) RunCase(ctx *runner.Ctx) runner.CaseResult {
 	// their expression was evaluated (wrong-typed index key, removed / retyped key attribute): the map
 	// must keep the state of the most recent SUCCESSFUL write
 	spec.Indexes = []adapt.IndexSpec{{Name: "gsia", Hash: "a"}}
+	// key types rotate: S/S, N/S, S/N, B/B, N/N. String parts come from the hostile pool and from
+	// numeral-looking strings ("1.0" and "1.00" are different strings); number parts from numerals, and a
+	// request may write a number part in another notation of the same value (same key)
+	kt := [][2]string{{"S", "S"}, {"N", "S"}, {"S", "N"}, {"B", "B"}, {"N", "N"}}[(idx/4)%5]
+	spec.HashT, spec.RangeT = kt[0], kt[1]
+	if spec.Range == "" {
+		spec.RangeT = ""
+	}
+	strPool := append(append([]string{}, mon.HostileKeys...), "1", "1.0", "1.00", "01", "7", "007")
+	numPool := []string{"1", "1.0", "10", "2", "-1", "0.5", "1e1", "100", "7"}
+	part := func(t string) string {
+		if t == "N" {
+			return mon.Pick(r, numPool)
+		}
+		return mon.Pick(r, strPool)
+	}
+	alt := func(k val.Item) val.Item {
+		o := k.Clone()
+		for a, v := range o {
+			if v.K == val.KN && r.Intn(3) == 0 {
+				switch {
+				case !strings.ContainsAny(v.Str, ".eE"):
+					o[a] = val.Num(v.Str + ".0")
+				case !strings.ContainsAny(v.Str, "eE"):
+					o[a] = val.Num(v.Str + "0")
+				}
+			}
+		}
+		return o
+	}
 	nk := 3 + r.Intn(4)
 	keys := []val.Item{}
 	seen := map[string]bool{}
 	for len(keys) < nk {
-		k := mon.KeyFor(spec, mon.Pick(r, mon.HostileKeys), mon.Pick(r, mon.HostileKeys))
+		k := mon.KeyFor(spec, part(spec.HashT), part(spec.RangeT))
 		if seen[k.Canon()] {
 			continue
 		}
@@ -212,7 +242,7 @@ func (p *c01) RunCase(ctx *runner.Ctx) runner.CaseResult {
 	opts := mon.GenOpts{MaxDepth: 2, NoEmptyLM: true}
 	for i := 0; i < n; i++ {
 		ki := r.Intn(len(keys))
-		k := keys[ki]
+		k := alt(keys[ki])
 		t := r.Intn(c01Templates)
 		var op adapt.Op
 		switch t {
@@ -248,7 +278,12 @@ func (p *c01) RunCase(ctx *runner.Ctx) runner.CaseResult {
 			case 0:
 				op = mon.RemoveUpdate(spec.Name, k, spec.Hash)
 			case 1:
-				op = mon.SetUpdate(spec.Name, k, spec.Hash, val.Num("7"))
+				// retyping the hash key attribute (a same-type SET of a key attribute is the listed finding of C13)
+				if spec.HashT == "N" {
+					op = mon.SetUpdate(spec.Name, k, spec.Hash, val.Str("seven"))
+				} else {
+					op = mon.SetUpdate(spec.Name, k, spec.Hash, val.Num("7"))
+				}
 			case 2:
 				op = mon.SetUpdate(spec.Name, k, "a", val.Num("7")) // index key attribute of the wrong type
 			case 3:
@@ -278,7 +313,8 @@ func (p *c01) RunCase(ctx *runner.Ctx) runner.CaseResult {
 	x.r.Evals += st.Calls
 	x.r.Counters["histories"]++
 	x.r.Counters["steps"] += st.Steps
-	x.fp(c01NonTrivial(dec), "seeded|%s|%s|%s", adapter, spec.Range, strings.Join(kinds, ","))
+	x.fp(c01NonTrivial(dec), "seeded|%s|%s%s%s|%s", adapter, spec.Range, spec.HashT, spec.RangeT, strings.Join(kinds, ","))
+	x.set("key_types", spec.HashT+"/"+spec.RangeT)
 	if f != nil {
 		x.failureViolation(adapter, f, spec)
 	}
